@@ -1,17 +1,21 @@
 import ShredModel.Lemmas.Scenario
+import ShredModel.Lemmas.Share
+import ShredModel.Model.Builder
 /-!
 # C10 — no needless serialisation
 
 Stated for the repaired `insert` (fix D3 in /repo: the dependency list is de-duplicated and the
 ids of stages in front of the barrier are crossed off first). Without those two steps the
-statement is false — `a; barrier; b; c→a` is the witness kept in `corpus/plan`.
+statement is false — `a; barrier; b; c→a` and `x; z; y→[x,x]` are the witnesses kept in
+`corpus/plan` and replayed on the real crate on every run.
 -/
 namespace Shred
 
-/-- **C10 (every skipped stage is justified).** When the builder (any reachable one: `b.OK D`
-and every dependency placed) chooses a target for a new system, every stage between the
-barrier and the chosen stage holds an earlier system that conflicts with the new one, or one of
-the new system's dependencies sits in that stage or a later one. For **any** join policy. -/
+/-- **C10 (every skipped stage is justified), decision level.** When the builder (any reachable
+one: `b.OK D` and every dependency placed) chooses a target for a new system, every stage
+between the barrier and the chosen stage holds an earlier system that conflicts with the new
+one, or one of the new system's dependencies sits in that stage or a later one. For **any**
+join policy. -/
 theorem C10_skipped_stage_justified {D : Nat → Decl} (joinOk : ZStage → Nat → Nat → Bool)
     (b : ZB) (hb : b.OK D) (dep : List Nat) (d : Decl)
     (hplaced : ∀ A, A ∈ dep → ∃ s, InStage b s A)
@@ -29,7 +33,103 @@ theorem C10_target_is_the_codes {b : StagesBuilder} {z : ZB} (hz : Zips b z) (de
   rw [insertionTarget_sim hz, prepDep_sim hz]
   rfl
 
+namespace Scenario
+variable (sc : Scenario)
+
+/-- **C10, on the tables of the code, for every registration sequence.** Whatever is registered
+next (any declaration, any dependency list over registered systems): every stage the code's
+`insertion_target` skips — from the barrier up to the stage it chooses, or up to the end when it
+opens a new stage — contains an earlier-registered system the new one conflicts with, or a
+stage at or behind it contains one of its dependencies. -/
+theorem C10_no_needless_serialisation (dep : List Nat) (d : Decl) (hdep : ∀ A, A ∈ dep → A < sc.final.n)
+    (s : Nat) (hs1 : sc.final.b.barrier ≤ s)
+    (hs2 : s < (sc.final.b.insertionTarget (sortDedup d.reads) d.writes (sc.final.b.prepDep dep) d.time).stageOr
+      sc.final.b.stages.length) :
+    (∃ st a, sc.final.b.stages[s]? = some st ∧ a ∈ st.flatten ∧ a < sc.final.n ∧ conflictsD d (sc.D a)) ∨
+    (∃ A s' st', A ∈ dep ∧ s ≤ s' ∧ sc.final.b.ids[s']? = some st' ∧ A ∈ st'.flatten) := by
+  obtain ⟨z, hz⟩ := sc.good
+  have hlen := (zips_length hz.zips)
+  rw [C10_target_is_the_codes hz.zips, hlen.2, ← hlen.1] at hs2
+  rw [← hz.zips.barrier] at hs1
+  have hplaced : ∀ A, A ∈ dep → ∃ s, InStage z s A := fun A hA => hz.placed (hdep A hA)
+  rcases C10_skipped_stage_justified zJoinOk z hz.ok dep d hplaced s hs1 hs2 with
+    ⟨st, g, a, hst, hg, ha, hc⟩ | ⟨A, s', hA, hss', st', g', hst', hg', hA'⟩
+  · left
+    refine ⟨st.map (·.sys), a, ?_, ?_, ?_, hc⟩
+    · rw [stages_eq_of_zips hz.zips]; simp [hst]
+    · exact List.mem_flatten.mpr ⟨g.sys, List.mem_map.mpr ⟨g, hg, rfl⟩, ha⟩
+    · have : a ∈ z.allIds := by
+        rw [← flatten_sys_eq_allIds hz]
+        exact List.mem_flatten.mpr ⟨g.sys, List.mem_flatten.mpr ⟨st.map (·.sys),
+          List.mem_map.mpr ⟨st, List.mem_of_getElem? hst, rfl⟩, List.mem_map.mpr ⟨g, hg, rfl⟩⟩, ha⟩
+      have hc' := List.count_pos_iff.mpr this
+      rw [hz.ids a] at hc'
+      split at hc' <;> omega
+  · right
+    refine ⟨A, s', st'.map (·.ids), hA, hss', ?_, ?_⟩
+    · rw [ids_eq_of_zips hz.zips]; simp [hst']
+    · exact List.mem_flatten.mpr ⟨g'.ids, List.mem_map.mpr ⟨g', hg', rfl⟩, hA'⟩
+
+end Scenario
+
+/-- **C10 ("in particular").** From a builder in which nothing was registered since the last
+barrier (`stages = pre`, `barrier = pre.length`; the empty builder is `pre = []`), registering
+any list of pairwise compatible, dependency-free systems puts all of them into one new stage,
+one group each — whatever the running-time hints and for any join policy. -/
+theorem C10_compatible_share_stage (joinOk : ZStage → Nat → Nat → Bool) (pre : List ZStage)
+    (ds : List (Nat × Decl)) (hds : ds ≠ []) (hcompat : ds.Pairwise fun p q => ¬ conflictsD p.2 q.2) :
+    ds.foldl (fun b p => b.insert joinOk sortDedup dedup [] p.1 p.1 p.2) ({ barrier := pre.length, stages := pre } : ZB) =
+      { barrier := pre.length, stages := pre ++ [ds.map soloGroup] } :=
+  compatible_share_stage joinOk pre ds hds hcompat
+
+/-- non-vacuity: three readers of one resource and a writer of another -/
+example : [((0 : Nat), (⟨[⟨0, 0⟩], [], 1⟩ : Decl)), (1, ⟨[⟨0, 0⟩], [], 5⟩), (2, ⟨[], [⟨1, 0⟩], 3⟩)].Pairwise
+    (fun p q => ¬ conflictsD p.2 q.2) := by
+  simp [conflictsD]
+
+/-- **C10 (`max_threads`).** The reported maximum thread count is the width of the widest stage. -/
+theorem C10_max_threads_is_width (b : DispatcherBuilder) :
+    (∀ st, st ∈ b.stagesBuilder.stages → st.length ≤ b.maxThreads) ∧
+    (b.stagesBuilder.stages ≠ [] → ∃ st, st ∈ b.stagesBuilder.stages ∧ st.length = b.maxThreads) := by
+  unfold DispatcherBuilder.maxThreads
+  generalize b.stagesBuilder.stages = t
+  have key : ∀ (l : List Nat) (m : Nat), (∀ x, x ∈ l → x ≤ l.foldl Nat.max m) ∧ m ≤ l.foldl Nat.max m ∧
+      (l.foldl Nat.max m = m ∨ l.foldl Nat.max m ∈ l) := by
+    intro l
+    induction l with
+    | nil => intro m; simp
+    | cons a l ih =>
+      intro m
+      simp only [List.foldl, List.mem_cons]
+      obtain ⟨h1, h2, h3⟩ := ih (Nat.max m a)
+      refine ⟨?_, Nat.le_trans (Nat.le_max_left m a) h2, ?_⟩
+      · rintro x (rfl | hx)
+        · exact Nat.le_trans (Nat.le_max_right m x) h2
+        · exact h1 x hx
+      · rcases h3 with h3 | h3
+        · rcases Nat.le_total m a with hma | ham
+          · right; left; rw [h3]; exact Nat.max_eq_right hma
+          · left; rw [h3]; exact Nat.max_eq_left ham
+        · exact Or.inr (Or.inr h3)
+  obtain ⟨h1, _, h3⟩ := key (t.map List.length) 0
+  constructor
+  · intro st hst
+    exact h1 _ (List.mem_map.mpr ⟨st, hst, rfl⟩)
+  · intro hne
+    rcases h3 with h3 | h3
+    · cases t with
+      | nil => exact absurd rfl hne
+      | cons st t =>
+        refine ⟨st, by simp, ?_⟩
+        have := h1 st.length (by simp)
+        omega
+    · obtain ⟨st, hst, he⟩ := List.mem_map.mp h3
+      exact ⟨st, hst, he⟩
+
 end Shred
 
 #print axioms Shred.C10_skipped_stage_justified
 #print axioms Shred.C10_target_is_the_codes
+#print axioms Shred.Scenario.C10_no_needless_serialisation
+#print axioms Shred.C10_compatible_share_stage
+#print axioms Shred.C10_max_threads_is_width
